@@ -490,6 +490,10 @@ func gen(seed uint64, tier string) {
 
 // ---------------------------------------------------------------- attribute construction
 
+// trickyPattern is the pattern every generated Pattern validation uses: characters that are special to Go string
+// literals, to fmt verbs and to text/template.
+const trickyPattern = `^[0-9]{1,3}%$|"q"\\d%s{{x}}`
+
 type toks struct {
 	t []string
 	i int
@@ -544,7 +548,7 @@ func (t *toks) rules(isInt bool) *expr.ValidationExpr {
 		case "fmt":
 			v.Format = expr.FormatUUID
 		case "pat":
-			v.Pattern = "^[a-z]+$"
+			v.Pattern = trickyPattern
 		case "min":
 			f := ratFloat(t.next())
 			v.Minimum = &f
@@ -1174,8 +1178,17 @@ func stmt(s ast.Stmt) (*node, error) {
 		}
 		switch fn {
 		case "goa.ValidatePattern":
+			// the pattern must reach the runtime exactly as designed
+			if lit, ok := args[2].(*ast.BasicLit); !ok || lit.Kind != token.STRING {
+				return nil, fmt.Errorf("pattern argument is not a string literal")
+			} else if p, err := strconv.Unquote(lit.Value); err != nil || p != trickyPattern {
+				return nil, fmt.Errorf("the emitted pattern is %s, the design says %q", lit.Value, trickyPattern)
+			}
 			return &node{kind: "chk", viol: "invalid_pattern", cond: "pat", target: target(args[1])}, nil
 		case "goa.ValidateFormat":
+			if exprName(args[2]) != "goa.FormatUUID" {
+				return nil, fmt.Errorf("the emitted format is %s, the design says uuid", exprName(args[2]))
+			}
 			return &node{kind: "chk", viol: "invalid_format", cond: "fmt", target: target(args[1])}, nil
 		}
 		return nil, fmt.Errorf("bare %s", fn)
